@@ -196,7 +196,7 @@ impl Prop for C08 {
         "C08"
     }
     fn rule(&self) -> String {
-        "generated histories: 1-12 edges (length 5 m - 20 km, table speed 3-130, grade -0.25..0.25 incl. steep downhill) x vehicle {ICE Camry, BEV Bolt, PHEV Volt} over the bundled models wrapped in a continuous interpolation x battery capacity 0.05-100 kWh x starting charge in [0,100] or invalid (-5, 100.01, text, null, missing) x unit configuration of the time model (3 speed x 5 distance x 4 time units), of the energy service (distance unit, speed unit), of the grade table (3 units) x real-world adjustment none or 0.5-2 x prediction cache off or size 1-64 with precisions -1..3. The real EnergyTraversalModel is driven edge by edge; oracle: reference energy = model rate at the reference speed/grade x adjustment x length, charge = clamp(charge - 100 x electric energy / capacity), PHEV mode by charge at entry, additivity, best-case estimate = ideal rate x great-circle distance, a reference LRU for the cache. non-trivial = >= 3 edges with a negative-energy edge and a clamp at 0 or 100, or a PHEV history that crosses from electric to liquid".to_string()
+        "generated histories: 1-12 edges (length 5 m - 20 km, table speed 3-130, grade -0.25..0.25 incl. steep downhill) x vehicle {ICE Camry, BEV Bolt, PHEV Volt} over the bundled models wrapped in a continuous interpolation x battery capacity 0.05-100 kWh x starting charge in [0,100] or invalid (-5, 100.01, text, null, missing) x unit configuration of the time model (3 speed x 5 distance x 4 time units), of the energy service (distance unit, speed unit), of the grade table (3 units) x real-world adjustment none or 0.5-2 x prediction cache off or size 1-64 with precisions -1..3. The real EnergyTraversalModel is driven edge by edge; oracle: reference energy = model rate at the reference speed/grade x adjustment x length, charge = clamp(charge - 100 x electric energy / capacity), PHEV mode by charge at entry, additivity, best-case estimate = ideal rate x great-circle distance, with a cache the reference is the range of the model over the bucket of speeds and grades sharing the edge's cache key. non-trivial = >= 3 edges with a negative-energy edge and a clamp at 0 or 100, or a PHEV history that crosses from electric to liquid".to_string()
     }
     fn cases(&self, tier: Tier) -> u32 {
         tier.pick(20_000, 600_000)
@@ -423,8 +423,8 @@ impl Prop for C08 {
         let mut lru_elec = c.cache.map(|(cap, ps, pg)| RefLru { cap, ps, pg, entries: vec![] });
         let mut lru_liq = c.cache.map(|(cap, ps, pg)| RefLru { cap, ps, pg, entries: vec![] });
         let mut soc = if battery { soc0 } else { start_soc };
-        let mut sum_elec = 0.0;
-        let mut sum_liq = 0.0;
+        let mut sum_elec = (0.0f64, 0.0f64);
+        let mut sum_liq = (0.0f64, 0.0f64);
         let mut tol_sum = 0.0;
         let mut clamp_event = false;
         let mut negative_edge = false;
@@ -465,9 +465,15 @@ impl Prop for C08 {
                     .unwrap_or(f64::NAN)
             };
             // the implementation recovers the speed as length / time, which differs from the
-            // table speed by unit-constant rounding; with a cache, the key is that recovered value
-            let rate = match lru {
-                None => predict(speed_ref, grade_ref),
+            // table speed by unit-constant rounding; with a cache, the key is that recovered value.
+            // A cache answers with one rate per key, i.e. per bucket of speeds and grades that
+            // round to the same key: the reference is the range of the model over that bucket
+            // (which contains the edge's own speed and grade), not one point of it - whether the
+            // entry holds the rate of the bucket's centre or of one of its members is not fixed
+            // by the statement; that it must not depend on earlier queries is C06's business.
+            let own = predict(speed_ref, grade_ref);
+            let (rate_lo, rate_hi) = match lru {
+                None => (own, own),
                 Some(l) => {
                     let key = l.key(speed_ref, grade_ref);
                     // keys that sit on a rounding boundary cannot be predicted from outside
@@ -476,37 +482,71 @@ impl Prop for C08 {
                         o.label("cache-key-on-rounding-boundary-not-judged");
                         return o;
                     }
-                    match l.get(key) {
-                        Some(r) => {
-                            o.label("cache-hit");
-                            r
-                        }
-                        None => {
-                            let r = predict(speed_ref, grade_ref);
-                            l.put(key, r);
-                            r
+                    if l.get(key).is_some() {
+                        o.label("cache-key-seen-before");
+                    }
+                    l.put(key, 0.0);
+                    let (ws, wg) = (10f64.powi(-l.ps), 10f64.powi(-l.pg));
+                    let (cs, cg) = (key.0 as f64 * ws, key.1 as f64 * wg);
+                    // the wrapped model is piecewise bilinear on 0..100 mph x -0.3..0.3 (cells of
+                    // 2 mph x 0.02) and constant beyond: the bucket is cut to that domain
+                    let (s_max, g_max) = (100.0 * speed_si(SpeedUnit::MilesPerHour) / speed_si(ssu), 0.3 / grade_si(gu));
+                    let (s_cell, g_cell) = (s_max / 50.0, g_max / 15.0);
+                    let (s0, s1) = ((cs - ws / 2.0).clamp(0.0, s_max), (cs + ws / 2.0).clamp(0.0, s_max));
+                    let (g0, g1) = ((cg - wg / 2.0).clamp(-g_max, g_max), (cg + wg / 2.0).clamp(-g_max, g_max));
+                    // a piecewise bilinear function takes its extremes over a rectangle at the
+                    // rectangle's corners and at the grid lines crossing it: exactly these points
+                    let mut xs = vec![s0, s1, speed_ref.clamp(s0, s1)];
+                    for k in 0..=50 {
+                        let x = k as f64 * s_cell;
+                        if x > s0 && x < s1 {
+                            xs.push(x);
                         }
                     }
+                    let mut ys = vec![g0, g1, grade_ref.clamp(g0, g1)];
+                    for k in 0..=30 {
+                        let y = -g_max + k as f64 * g_cell;
+                        if y > g0 && y < g1 {
+                            ys.push(y);
+                        }
+                    }
+                    let (mut lo, mut hi) = (own, own);
+                    for x in &xs {
+                        for y in &ys {
+                            let r = predict(*x, *y);
+                            if r.is_finite() {
+                                lo = lo.min(r);
+                                hi = hi.max(r);
+                            }
+                        }
+                    }
+                    (lo, hi)
                 }
             };
             let dist_in_rate_unit = len / dist_si(rate_distance_unit(rate_unit));
-            let de = rate * adj * dist_in_rate_unit;
+            let (de_lo, de_hi) = (rate_lo * adj * dist_in_rate_unit, rate_hi * adj * dist_in_rate_unit);
             let flat = predict(speed_ref, 0.0).abs() * adj * dist_in_rate_unit;
-            let tol = 3e-3 * de.abs() + 3e-3 * flat + 1e-12;
-            if de < 0.0 {
+            let tol = 3e-3 * de_lo.abs().max(de_hi.abs()) + 3e-3 * flat + 1e-12;
+            if de_hi < 0.0 {
                 negative_edge = true;
             }
             let d_elec = after.1 - before.1;
             let d_liq = after.2 - before.2;
             let ctx = json!({"edge": k, "length_m": len, "table_speed": speed, "grade_decimal": grade, "mode": if electric_mode { "electric" } else { "liquid" },
-                             "reference_rate": rate, "reference_energy": de, "reported": {"electric_kwh": d_elec, "liquid_gal": d_liq, "soc_before": before.0, "soc_after": after.0},
+                             "reference_rate_range": [rate_lo, rate_hi], "reference_energy_range": [de_lo, de_hi], "reported": {"electric_kwh": d_elec, "liquid_gal": d_liq, "soc_before": before.0, "soc_after": after.0},
                              "capacity_kwh": c.capacity_kwh, "adjustment": adj, "cache": c.cache});
-            let (want_elec, want_liq) = if electric_mode { (de, 0.0) } else { (0.0, de) };
-            if battery && (d_elec - want_elec).abs() > tol {
+            let within = |d: f64, on: bool| -> bool {
+                if on {
+                    d >= de_lo - tol && d <= de_hi + tol
+                } else {
+                    d.abs() <= tol
+                }
+            };
+            if battery && !within(d_elec, electric_mode) {
                 o.fail(format!("C08/{}/electric-energy-of-edge", vname), ctx);
                 return o;
             }
-            if c.vehicle % 3 != 1 && (d_liq - want_liq).abs() > tol {
+            if c.vehicle % 3 != 1 && !within(d_liq, !electric_mode) {
                 o.fail(format!("C08/{}/liquid-energy-of-edge", vname), ctx);
                 return o;
             }
@@ -517,9 +557,14 @@ impl Prop for C08 {
                     switched = true;
                 }
             }
-            sum_elec += want_elec;
+            if electric_mode {
+                sum_elec.0 += de_lo;
+                sum_elec.1 += de_hi;
+            } else {
+                sum_liq.0 += de_lo;
+                sum_liq.1 += de_hi;
+            }
             tol_sum += tol;
-            sum_liq += want_liq;
             if battery {
                 // charge follows the *reported* electric energy exactly as the statement says
                 let unclamped = soc - 100.0 * d_elec / c.capacity_kwh;
@@ -543,12 +588,12 @@ impl Prop for C08 {
         }
         // additivity
         let fin = read(&state);
-        if battery && (fin.1 - sum_elec).abs() > tol_sum + 1e-9 {
-            o.fail(format!("C08/{}/electric-energy-not-additive", vname), json!({"final": fin.1, "sum_of_reference_edge_energies": sum_elec}));
+        if battery && (fin.1 < sum_elec.0 - tol_sum - 1e-9 || fin.1 > sum_elec.1 + tol_sum + 1e-9) {
+            o.fail(format!("C08/{}/electric-energy-not-additive", vname), json!({"final": fin.1, "sum_of_reference_edge_energies": [sum_elec.0, sum_elec.1]}));
             return o;
         }
-        if c.vehicle % 3 != 1 && (fin.2 - sum_liq).abs() > tol_sum + 1e-9 {
-            o.fail(format!("C08/{}/liquid-energy-not-additive", vname), json!({"final": fin.2, "sum_of_reference_edge_energies": sum_liq}));
+        if c.vehicle % 3 != 1 && (fin.2 < sum_liq.0 - tol_sum - 1e-9 || fin.2 > sum_liq.1 + tol_sum + 1e-9) {
+            o.fail(format!("C08/{}/liquid-energy-not-additive", vname), json!({"final": fin.2, "sum_of_reference_edge_energies": [sum_liq.0, sum_liq.1]}));
             return o;
         }
         o.label_if(clamp_event, "charge-clamped");
